@@ -426,6 +426,12 @@ type closeState struct {
 	tasksEnd   int
 	closeRet   bool
 	closedSeen int
+	// oracle updates of the racing tasks, applied by the main task in this order
+	// once the racers are done (the racing tasks never touch the candidate-set
+	// oracle themselves: it lives in Go maps and is shared with nobody while the
+	// race is on)
+	deferred    []func()
+	delMaxAcked uint64 // highest index removed by an acknowledged head truncation
 }
 
 func isClosedErr(err error) bool { return errors.Is(err, wal.ErrClosed) }
@@ -467,18 +473,20 @@ func (ex *Exec) clAppender(n int) {
 		}
 		if err == nil {
 			cl.ackedMax = es[len(es)-1].Index
-			for _, e := range es {
-				ex.protected[e.Index] = e
-			}
 			mop := model.Op{Kind: model.OpAppend, Entries: es}
-			ex.or.Acked(mop)
+			cl.deferred = append(cl.deferred, func() {
+				for _, e := range mop.Entries {
+					ex.protected[e.Index] = e
+				}
+				ex.or.Acked(mop)
+			})
 			continue
 		}
 		if isClosedErr(err) {
 			cl.closedSeen++
 			// not stored (the call says so); but the batch may be in flight on disk
-			ex.or.Disk = append(ex.or.Disk, nil)[:len(ex.or.Disk)]
-			ex.or.InFlight(model.Op{Kind: model.OpAppend, Entries: es})
+			mop := model.Op{Kind: model.OpAppend, Entries: es}
+			cl.deferred = append(cl.deferred, func() { ex.or.InFlight(mop) })
 			return
 		}
 		ex.violate("racing-call-result", "racing-call-error:StoreLogs:"+errClass(err), "StoreLogs racing with Close returned %v: neither success nor ErrClosed", err)
@@ -509,6 +517,7 @@ func (ex *Exec) clReader(n int) {
 		case 1:
 			var v uint64
 			var err error
+			delAckedAtCall := cl.delMaxAcked
 			ex.callR(func() error { v, err = ex.w.FirstIndex(); return err })
 			if ex.stop() || !ex.raceErr("FirstIndex", err) {
 				if err != nil {
@@ -516,8 +525,8 @@ func (ex *Exec) clReader(n int) {
 				}
 				continue
 			}
-			if v != cl.first0 {
-				ex.violate("racing-call-result", "racing-wrong-firstindex", "FirstIndex racing with Close returned %d, want %d", v, cl.first0)
+			if v < delAckedAtCall+1 && delAckedAtCall != 0 || v < cl.first0 || v > maxu(cl.first0, cl.delIssued+1) {
+				ex.violate("racing-call-result", "racing-wrong-firstindex", "FirstIndex racing with Close returned %d; initial first index %d, head truncation acknowledged up to %d before the call, issued up to %d", v, cl.first0, delAckedAtCall, cl.delIssued)
 				return
 			}
 		default:
@@ -529,10 +538,14 @@ func (ex *Exec) clReader(n int) {
 				return
 			}
 			if errors.Is(err, raft.ErrLogNotFound) {
-				if idx >= cl.first0 && idx <= ackedAtCall {
+				if idx >= cl.first0 && idx <= ackedAtCall && idx > cl.delIssued {
 					ex.violate("racing-call-result", "racing-notfound-for-acked", "GetLog(%d) racing with Close returned not-found; entries up to %d were acknowledged before the call", idx, ackedAtCall)
 					return
 				}
+				continue
+			}
+			if err != nil && !isClosedErr(err) && idx <= cl.delIssued {
+				// a read may fail for an index that a truncation removes during it
 				continue
 			}
 			if !ex.raceErr("GetLog", err) {
@@ -555,11 +568,64 @@ func (ex *Exec) clReader(n int) {
 	}
 }
 
-func (ex *Exec) clStable(n int) {
+// clDeleter issues head truncations racing with Close. They stay inside the
+// entries present when the race began and leave the last of those in place, so
+// they commute with the appender's batches.
+func (ex *Exec) clDeleter(n int, limit uint64) {
 	cl := ex.cl
 	defer func() { cl.tasksEnd++ }()
 	for i := 0; i < n && !ex.stop(); i++ {
-		key := fmt.Sprintf("ck%d", ex.tape.Choose(2))
+		lo := maxu(cl.first0, cl.delIssued+1)
+		if lo > limit {
+			return
+		}
+		hi := lo + uint64(ex.tape.Choose(int(minu(limit-lo, 6))+1))
+		cl.delIssued = hi
+		mop := model.Op{Kind: model.OpDelete, Min: cl.first0, Max: hi}
+		cl.deferred = append(cl.deferred, func() {
+			// an entry stops being protected the moment a DeleteRange covering it is issued
+			for idx := range ex.protected {
+				if idx <= hi {
+					delete(ex.protected, idx)
+				}
+			}
+		})
+		err := ex.callR(func() error { return ex.w.DeleteRange(cl.first0, hi) })
+		ex.stats.Ops++
+		if ex.stop() {
+			return
+		}
+		if err == nil {
+			cl.delMaxAcked = hi
+			cl.deferred = append(cl.deferred, func() { ex.or.Acked(mop) })
+			continue
+		}
+		if isClosedErr(err) {
+			cl.closedSeen++
+			cl.deferred = append(cl.deferred, func() { ex.or.InFlight(mop) })
+			return
+		}
+		ex.violate("racing-call-result", "racing-call-error:DeleteRange:"+errClass(err), "DeleteRange racing with Close returned %v: neither success nor ErrClosed", err)
+		return
+	}
+}
+
+func minu(a, b uint64) uint64 {
+	if a < b {
+		return a
+	}
+	return b
+}
+
+func (ex *Exec) clStable(n int, initial [2]string) {
+	cl := ex.cl
+	defer func() { cl.tasksEnd++ }()
+	// only this task writes ck0 / ck1 during the race: the expected value is its
+	// own latest acknowledged Set, else what the store held when the race began
+	expect := initial
+	for i := 0; i < n && !ex.stop(); i++ {
+		ki := ex.tape.Choose(2)
+		key := fmt.Sprintf("ck%d", ki)
 		if ex.tape.Choose(2) == 0 {
 			val := fmt.Sprintf("v%d", ex.nextID)
 			ex.nextID++
@@ -569,14 +635,15 @@ func (ex *Exec) clStable(n int) {
 			}
 			mop := model.Op{Kind: model.OpSet, Key: key, Val: &val}
 			if err == nil {
-				ex.or.Acked(mop)
+				expect[ki] = val
+				cl.deferred = append(cl.deferred, func() { ex.or.Acked(mop) })
 			} else if isClosedErr(err) {
 				cl.closedSeen++
 				return
 			} else {
 				// the closed check may pass and the meta store be closed underneath:
 				// the property allows only ErrClosed or success
-				ex.or.InFlight(mop)
+				cl.deferred = append(cl.deferred, func() { ex.or.InFlight(mop) })
 				ex.raceErr("Set", err)
 				return
 			}
@@ -592,14 +659,8 @@ func (ex *Exec) clStable(n int) {
 					return
 				}
 			}
-			ok := false
-			for _, s := range ex.or.Mem {
-				if s.Stable[key] == string(got) {
-					ok = true
-				}
-			}
-			if !ok {
-				ex.violate("racing-call-result", "racing-wrong-stable", "Get(%q) racing with Close returned %q", key, got)
+			if err == nil && expect[ki] != string(got) {
+				ex.violate("racing-call-result", "racing-wrong-stable", "Get(%q) racing with Close returned %q, want %q", key, got, expect[ki])
 				return
 			}
 		}
@@ -645,7 +706,11 @@ func (ex *Exec) runCloseRace() {
 		spawn(fmt.Sprintf("reader%d", i), func() { ex.clReader(3 + ex.tape.Choose(8)) })
 	}
 	if ex.tape.Choose(3) == 0 {
-		spawn("stable", func() { ex.clStable(2 + ex.tape.Choose(5)) })
+		initial := [2]string{st.Stable["ck0"], st.Stable["ck1"]}
+		spawn("stable", func() { ex.clStable(2+ex.tape.Choose(5), initial) })
+	}
+	if st.Last > st.First && ex.tape.Choose(3) == 0 {
+		spawn("deleter", func() { ex.clDeleter(1+ex.tape.Choose(2), st.Last-1) })
 	}
 	// let the others run for a tape-chosen while, then close
 	for d := ex.tape.Choose(12); d > 0; d-- {
@@ -704,6 +769,10 @@ func (ex *Exec) runCloseRace() {
 	if ex.stop() {
 		return
 	}
+	for _, f := range cl.deferred {
+		f()
+	}
+	cl.deferred = nil
 	if !ex.sim.RotatorGone(dir) {
 		ex.violate("closed-is-final", "rotator-still-running", "the background rotation goroutine has not exited after Close and quiescence")
 		return
